@@ -83,6 +83,13 @@ def run(chk):
                 st2["position"] = [x * k for x in st["position"]]
             fscale, mscale = k * k, k ** 3
         elif mode == "speed":
+            if (it // 4) % 2 == 0 and not isinstance(st["velocity"], list):
+                # the same steady wind at both airspeeds (V, alpha, beta are air-relative): the air-relative flow is similar,
+                # the ground speed is not
+                wv = [round(rng.uniform(-20, 20), 2), round(rng.uniform(-20, 20), 2), round(rng.uniform(-4, 4), 2)]
+                sd["scene"]["atmosphere"]["V_wind"] = wv
+                sd2 = copy.deepcopy(sd)
+                chk.count("speed-with-wind")
             if isinstance(st["velocity"], list):
                 st2["velocity"] = [x * k for x in st["velocity"]]
             else:
@@ -95,9 +102,30 @@ def run(chk):
             sd["scene"]["atmosphere"]["rho"] = rho
             sd2["scene"]["atmosphere"]["rho"] = rho * k
             fscale, mscale = k, k
+        extra_a, extra_b = [], []
+        if it % 6 == 1 and mode == "length":
+            # a formation: the wingman's position (and size) scales with everything else; large k carries the separation past any
+            # absolute distance a shortcut might use
+            k = rng.choice([0.1, 12.0, 20.0])
+            ac2 = scale_aircraft(ac, k)
+            st2 = copy.deepcopy(st)
+            if "angular_rates" in st2:
+                st2["angular_rates"] = [x / k for x in st["angular_rates"]]
+            st.setdefault("position", [0.0, 0.0, 0.0])
+            st2["position"] = [x * k for x in st["position"]]
+            fscale, mscale = k * k, k ** 3
+            wst = {"velocity": st["velocity"] if not isinstance(st["velocity"], list) else float(np.linalg.norm(st["velocity"])), "alpha": 2.0,
+                   "position": [st["position"][0] - 55.0, st["position"][1] + 30.0, st["position"][2] + 4.0]}
+            wac = gen.simple_wing_aircraft(N=3, b=3.0)
+            extra_a = [("w", wac, wst, {})]
+            extra_b = [("w", scale_aircraft(wac, k), dict(wst, position=[x * k for x in wst["position"]]), {})]
+            chk.count("formation")
+        # the convergence threshold is an absolute residual (force per unit density): scale it with the loads
+        sd2 = copy.deepcopy(sd2)
+        sd2.setdefault("solver", {})["convergence"] = sd.get("solver", {}).get("convergence", 1e-10) * max(1.0, fscale if mode != "density" else 1.0)
         try:
-            sa = gen.build_scene(MX, sd, [("a", ac, st, cs)])
-            sb = gen.build_scene(MX, sd2, [("a", ac2, st2, cs)])
+            sa = gen.build_scene(MX, sd, [("a", ac, st, cs)] + extra_a)
+            sb = gen.build_scene(MX, sd2, [("a", ac2, st2, cs)] + extra_b)
         except Exception as e:
             chk.count("error=" + type(e).__name__)
             continue
